@@ -7,23 +7,31 @@ Aspect model (DESIGN §3.4) of the *schedule* mechanism of the three single-stag
 `end_time`, the genesis clamp, the instantiate time checks, `execute_update_start_time`,
 `execute_update_end_time`, the has-started gate of `execute_remove_members`, and the activity queries
 (`IsActive`, `HasStarted`, `HasEnded`, `Config.is_active`). It also carries the admin list (because every
-schedule update is gated by `can_execute`) and `per_address_limit` (the third kind of update named by the
-property's quantifier; it must not touch the schedule).
+schedule update is gated by `can_execute`).
 
-Membership (who is on the list, `num_members`) is **environment**: `Op.removeMembers` carries the boolean
-"every listed address is currently a member and the list has no repetition" (`present`), which the harness
-establishes by `HasMember` queries before the call; `Op.env` stands for the messages that never look at the
-schedule (`AddMembers`, `IncreaseMemberLimit`) with their outcome supplied by the implementation.
+Everything else is **environment** (owned by other properties, C11 / C05), supplied by the implementation as a
+witness and only constrained not to touch the schedule:
+
+* `instantiate … envOk …`: `envOk` = "every instantiate check that is *not* about the schedule passes" (member limit
+  range, per-address limit range, creation fee, member count / whale cap, Merkle root / uri syntax). The harness
+  obtains it by instantiating the *same* message, with a canonical valid schedule, on a scratch chain (round 3; up to
+  round 2 these checks were modelled here and every legitimate change to them was a false C12 alarm).
+* `Op.removeMembers … present`: "every listed address is currently a member and the list has no repetition"
+  (from the harness's own bookkeeping of what it instantiated / added / removed).
+* `Op.updatePerAddr n ok`: `UpdatePerAddressLimit` with its observed outcome (`per_address_limit` is only carried so
+  that the drift part of the observation can show it).
+* `Op.env ok`: any message that never looks at the schedule — `AddMembers`, `IncreaseMemberLimit`, `migrate`, and
+  every message variant the harness finds in the crates' JSON schemas at run time that has no op of its own —
+  with its observed outcome.
 
 The three contracts are near-copies. The schedule code is *textually identical* in all three; they differ in
 the non-schedule instantiate checks and in which messages exist (`Variant`, see docs/C12.md).
 
 Mirrors (all under /repo/contracts/whitelists/):
-* `instantiate`            ↔ `whitelist{,-flex,-merkletree}/src/contract.rs::instantiate`
+* `instantiate`            ↔ `whitelist{,-flex,-merkletree}/src/contract.rs::instantiate` (the three time checks)
 * `step … (.updateStart)`  ↔ `execute_update_start_time`
 * `step … (.updateEnd)`    ↔ `execute_update_end_time`
 * `step … (.removeMembers)`↔ `execute_remove_members` (plain, flex; the Merkle whitelist has no such message)
-* `step … (.updatePerAddr)`↔ `execute_update_per_address_limit` (plain only)
 * `step … (.updateAdmins)`, `(.freeze)`, `isAdmin`, `canModify` ↔ `admin.rs`, `state.rs::AdminList`
 * `hasStarted`, `hasEnded`, `isActive`, `configIsActive` ↔ `query_has_started`, `query_has_ended`,
   `query_is_active`, `query_config`
@@ -38,26 +46,6 @@ deriving Repr, DecidableEq, BEq
 /-- `sg_utils::GENESIS_MINT_START_TIME` (nanoseconds) -/
 def GENESIS : Nat := Gen.sg_utils_GENESIS_MINT_START_TIME
 
-/-- `MAX_MEMBERS` (plain, flex); the Merkle whitelist has no member limit -/
-def Variant.maxMembers : Variant → Nat
-  | .plain => Gen.sg_whitelist_MAX_MEMBERS
-  | .flex => Gen.sg_whitelist_flex_MAX_MEMBERS
-  | .merkle => 0
-
-def Variant.pricePer1000 : Variant → Nat
-  | .plain => Gen.sg_whitelist_PRICE_PER_1000_MEMBERS
-  | .flex => Gen.sg_whitelist_flex_PRICE_PER_1000_MEMBERS
-  | .merkle => 0
-
-/-- `MAX_PER_ADDRESS_LIMIT` exists in the plain whitelist only -/
-def MAX_PER_ADDRESS_LIMIT : Nat := Gen.sg_whitelist_MAX_PER_ADDRESS_LIMIT
-
-/-- plain/flex: `Decimal::new(member_limit, 3).ceil() * PRICE_PER_1000_MEMBERS`; Merkle: `CREATION_FEE` -/
-def creationFee (v : Variant) (memberLimit : Nat) : Nat :=
-  match v with
-  | .merkle => Gen.whitelist_mtree_CREATION_FEE
-  | _ => ((memberLimit + 999) / 1000) * v.pricePer1000
-
 /-- The block clock plus the part of the contract state the schedule mechanism reads or writes. -/
 structure State where
   /-- `env.block.time` (environment; moved by `Op.setTime`) -/
@@ -66,7 +54,7 @@ structure State where
   start : Nat
   /-- `Config.end_time` -/
   end_ : Nat
-  /-- `Config.per_address_limit` (plain, Merkle; unused for flex) -/
+  /-- `Config.per_address_limit` (plain, Merkle; unused for flex). Outside the property's projection. -/
   perAddr : Nat
   /-- `AdminList.admins` -/
   admins : List Addr
@@ -74,58 +62,21 @@ structure State where
   adminsMutable : Bool
 deriving Repr, DecidableEq
 
-/-- `InstantiateMsg` as far as instantiate's accept/reject decision depends on it. -/
+/-- `InstantiateMsg` as far as the schedule mechanism depends on it. -/
 structure InstMsg where
   start : Nat
   end_ : Nat
-  /-- plain, flex -/
-  memberLimit : Nat
   /-- plain, Merkle -/
   perAddr : Nat
-  /-- plain: addresses (second component ignored); flex: (address, mint_count) -/
-  members : List (Addr × Nat)
-  /-- flex -/
-  whaleCap : Option Nat
   admins : List Addr
   adminsMutable : Bool
-  /-- Merkle: `verify_merkle_root` accepted the root string (opaque: hex decoding) -/
-  rootOk : Bool
-  /-- Merkle: `verify_tree_uri` accepted the uri (opaque: `Url::parse`) -/
-  uriOk : Bool
 deriving Repr
 
-/-- number of distinct addresses (`sort_unstable(); dedup()` in the plain whitelist) -/
-def distinctCount (ms : List (Addr × Nat)) : Nat := (ms.map (·.1)).eraseDups.length
-
-/-- `must_pay(&info, NATIVE_DENOM)? == fee` -/
-def paysExactly (funds : List Coin) (fee : Nat) : Bool :=
-  match mustPay funds NATIVE with
-  | .ok p => p == fee
-  | .error _ => false
-
-/-- Every instantiate check that is **not** about the schedule (environment for C12, C11 owns them). -/
-def envChecks (v : Variant) (funds : List Coin) (m : InstMsg) : Bool :=
-  match v with
-  | .plain =>
-      decide (1 ≤ m.memberLimit) && decide (m.memberLimit ≤ v.maxMembers)
-      && decide (1 ≤ m.perAddr) && decide (m.perAddr ≤ MAX_PER_ADDRESS_LIMIT)
-      && paysExactly funds (creationFee v m.memberLimit)
-      && decide (distinctCount m.members ≤ m.memberLimit)
-  | .flex =>
-      decide (1 ≤ m.memberLimit) && decide (m.memberLimit ≤ v.maxMembers)
-      && paysExactly funds (creationFee v m.memberLimit)
-      && (match m.whaleCap with
-          | none => true
-          | some cap => decide (cap > m.memberLimit) && m.members.all (fun x => decide (x.2 ≤ cap)))
-      -- compared before de-duplication: `num_members: msg.members.len()`
-      && decide (m.members.length ≤ m.memberLimit)
-  | .merkle =>
-      m.rootOk && m.uriOk && paysExactly funds (creationFee v m.memberLimit)
-
-/-- `instantiate` of all three contracts; `now` is `env.block.time`. The three time checks are spelled out in
-the order of the source. -/
-def instantiate (v : Variant) (now : Nat) (funds : List Coin) (m : InstMsg) : Except Err State :=
-  if !(envChecks v funds m) then .error .invalid
+/-- `instantiate` of all three contracts; `now` is `env.block.time`; `envOk` = every check that is not about the
+schedule passes (environment, see the file header). The three time checks are spelled out in the order of the
+source. -/
+def instantiate (v : Variant) (now : Nat) (envOk : Bool) (m : InstMsg) : Except Err State :=
+  if !envOk then .error .invalid
   else if m.start > m.end_ then .error .invalid          -- InvalidStartTime(start, end)
   else if now ≥ m.start then .error .tooLate             -- InvalidStartTime(now, start)
   else if m.start < GENESIS then .error .tooSoon         -- InvalidStartTime(start, genesis)
@@ -141,11 +92,13 @@ inductive Op where
   | updateEnd (sender : Addr) (t : Nat)
   /-- `present`: environment — every listed address is a member, no address listed twice -/
   | removeMembers (sender : Addr) (present : Bool)
-  | updatePerAddr (sender : Addr) (n : Nat)
+  /-- `UpdatePerAddressLimit(n)` with its observed outcome (environment: who may call it and which `n` are allowed
+  is not C12's business; it must not move the schedule) -/
+  | updatePerAddr (n : Nat) (ok : Bool)
   | updateAdmins (sender : Addr) (admins : List Addr)
   | freeze (sender : Addr)
-  /-- a message that never reads or writes the schedule (`AddMembers`, `IncreaseMemberLimit`); outcome is
-  the environment's -/
+  /-- any other message (`AddMembers`, `IncreaseMemberLimit`, `migrate`, variants discovered in the JSON schema at
+  run time): never reads or writes the schedule; outcome is the environment's -/
   | env (ok : Bool)
 deriving Repr, DecidableEq
 
@@ -172,11 +125,7 @@ def step (v : Variant) (s : State) : Op → Except Err State
       else if s.now ≥ s.start then .error .tooLate         -- AlreadyStarted
       else if !present then .error .notFound               -- NoMemberFound
       else .ok s
-  | .updatePerAddr a n =>
-      if v != .plain then .error .invalid                  -- no such message
-      else if !(isAdmin s a) then .error .unauthorized
-      else if n > MAX_PER_ADDRESS_LIMIT then .error .limit
-      else .ok { s with perAddr := n }
+  | .updatePerAddr n ok => if ok then .ok { s with perAddr := n } else .error .other
   | .updateAdmins a l =>
       if !(canModify s a) then .error .unauthorized else .ok { s with admins := l }
   | .freeze a =>
@@ -211,5 +160,21 @@ def opTime (n : Nat) : Op → Nat
 def TimeMonotone : Nat → List Op → Prop
   | _, [] => True
   | n, op :: ops => n ≤ opTime n op ∧ TimeMonotone (opTime n op) ops
+
+/-- the operation is one of the two messages that are allowed to move the schedule -/
+def Op.isScheduleUpdate : Op → Bool
+  | .updateStart _ _ => true
+  | .updateEnd _ _ => true
+  | _ => false
+
+/-- the account a message is signed by (`none`: the chain's clock, or an environment message whose sender the
+model does not look at) -/
+def Op.sender? : Op → Option Addr
+  | .updateStart a _ => some a
+  | .updateEnd a _ => some a
+  | .removeMembers a _ => some a
+  | .updateAdmins a _ => some a
+  | .freeze a => some a
+  | _ => none
 
 end LP.WlSchedule
